@@ -10,12 +10,14 @@ const SLOTS: usize = 96;
 const SLOT_BYTES: usize = 24 * 1024;
 
 struct Slot {
+    /// milliseconds since `arm` at which the noted case started (0 = the subject is not running on this thread)
+    started_ms: std::sync::atomic::AtomicU64,
     len: AtomicUsize,
     buf: std::cell::UnsafeCell<[u8; SLOT_BYTES]>,
 }
 unsafe impl Sync for Slot {}
 
-static SLOT_TABLE: [Slot; SLOTS] = [const { Slot { len: AtomicUsize::new(0), buf: std::cell::UnsafeCell::new([0u8; SLOT_BYTES]) } }; SLOTS];
+static SLOT_TABLE: [Slot; SLOTS] = [const { Slot { started_ms: std::sync::atomic::AtomicU64::new(0), len: AtomicUsize::new(0), buf: std::cell::UnsafeCell::new([0u8; SLOT_BYTES]) } }; SLOTS];
 static NEXT_SLOT: AtomicUsize = AtomicUsize::new(0);
 static CRASH_FD: AtomicI32 = AtomicI32::new(-1);
 static mut HEADER: [u8; 256] = [0u8; 256];
@@ -57,11 +59,42 @@ pub fn note(lang: &str, cfg: &str, sources: &[(&str, &str)]) {
         push(src.as_bytes());
     }
     slot.len.store(n, Ordering::Release);
+    slot.started_ms.store(now_ms().max(1), Ordering::Release);
 }
 
-pub fn clear() {
+/// The subject returned (or unwound) on this thread.
+pub fn done() {
     let i = my_slot();
-    SLOT_TABLE[i].len.store(0, Ordering::Release);
+    SLOT_TABLE[i].started_ms.store(0, Ordering::Release);
+}
+
+static EPOCH: std::sync::OnceLock<std::time::Instant> = std::sync::OnceLock::new();
+fn now_ms() -> u64 {
+    EPOCH.get_or_init(std::time::Instant::now).elapsed().as_millis() as u64
+}
+
+/// In-process watchdog: a case that has been inside the subject for longer than `limit_s` is reported as a hang
+/// (the subject's per-case work is milliseconds; the limit is generous so that machine load cannot trip it).
+fn spawn_watchdog(property: String, limit_s: u64) {
+    std::thread::spawn(move || loop {
+        std::thread::sleep(std::time::Duration::from_millis(500));
+        let now = now_ms();
+        for slot in SLOT_TABLE.iter() {
+            let st = slot.started_ms.load(Ordering::Acquire);
+            if st != 0 && now.saturating_sub(st) > limit_s * 1000 {
+                let path = format!("/verif/replays/{property}/hang-{}.txt", std::process::id());
+                let n = slot.len.load(Ordering::Acquire);
+                // SAFETY: the owning thread is stuck inside the subject and does not write the slot
+                let buf = unsafe { &*slot.buf.get() };
+                let mut text = format!("{{\"note\": \"the real typeshare code did not return within {limit_s} s on the case below (in-process run)\"}}\n").into_bytes();
+                text.extend_from_slice(&buf[..n]);
+                let _ = std::fs::write(&path, text);
+                println!("VIOLATION property={property} replay={path}\n  hang: the code under test did not return within {limit_s} s");
+                let _ = std::fs::remove_file(format!("/verif/replays/{property}/crash-{}.txt", std::process::id()));
+                unsafe { libc::_exit(1) };
+            }
+        }
+    });
 }
 
 extern "C" fn on_crash(sig: libc::c_int) {
@@ -109,6 +142,8 @@ pub fn arm(property: &str) {
         HEADER[..n].copy_from_slice(&b[..n]);
     }
     HEADER_LEN.store(n, Ordering::Relaxed);
+    let _ = now_ms();
+    spawn_watchdog(property.to_string(), std::env::var("TSMC_HANG_LIMIT_S").ok().and_then(|v| v.parse().ok()).unwrap_or(60));
     unsafe {
         let mut sa: libc::sigaction = std::mem::zeroed();
         sa.sa_sigaction = on_crash as usize;
